@@ -122,6 +122,7 @@ type tr struct {
 	fd         *ast.FuncDecl       // the function being translated (set by prepare)
 	closures   map[string]*ast.FuncLit // local `name := func(…) {…}` definitions seen so far
 	depth      int                 // inlining depth
+	errKnown   int                 // what is known about `err` on this path: 0 nothing, 1 non-nil, 2 nil (set by the branches of `if err != nil`)
 	retCont    func(t *tr, r *ast.ReturnStmt) string // set while a multi-result helper is inlined: what a `return` of it continues with
 }
 
@@ -131,10 +132,11 @@ type saved struct {
 	aliases    map[string]ast.Expr
 	opaque     map[string]bool
 	pendingErr string
+	errKnown   int
 }
 
 func (t *tr) save() saved {
-	s := saved{pendingErr: t.pendingErr}
+	s := saved{pendingErr: t.pendingErr, errKnown: t.errKnown}
 	if t.aliases != nil {
 		s.aliases = make(map[string]ast.Expr, len(t.aliases))
 		for k, v := range t.aliases {
@@ -151,7 +153,7 @@ func (t *tr) save() saved {
 }
 
 func (t *tr) restore(s saved) {
-	t.pendingErr = s.pendingErr
+	t.pendingErr, t.errKnown = s.pendingErr, s.errKnown
 	t.aliases, t.opaque = nil, nil
 	if s.aliases != nil {
 		t.aliases = make(map[string]ast.Expr, len(s.aliases))
@@ -222,6 +224,12 @@ func (t *tr) inlineMulti(x *ast.AssignStmt, rest []ast.Stmt, tail, ind string) (
 		}
 		// the helper's own pending error (its `err` of the latest failing call) is what `err` means if it is handed on
 		t3.pendingErr = h.pendingErr
+		t3.errKnown = 0
+		for i, n := range lhs {
+			if n == "err" {
+				t3.errKnown = h.nilness(h.subst(r.Results[i]))
+			}
+		}
 		return t3.block(rest, tail, ind)
 	}
 	out, done := "", false
@@ -705,6 +713,84 @@ func (t *tr) lvalue(e ast.Expr) string {
 	return ""
 }
 
+// mentions: does any of the statements refer to one of the names (as an identifier)?
+func mentions(stmts []ast.Stmt, names []string) bool {
+	if len(names) == 0 {
+		return false
+	}
+	found := false
+	for _, st := range stmts {
+		ast.Inspect(st, func(n ast.Node) bool {
+			if id, ok := n.(*ast.Ident); ok {
+				for _, nm := range names {
+					if id.Name == nm {
+						found = true
+					}
+				}
+			}
+			return !found
+		})
+	}
+	return found
+}
+
+// nilness of an expression after substitution: 1 = certainly non-nil (a freshly made error, a composite literal, an address),
+// 2 = the literal nil, 0 = not known. `err` itself is judged by what the enclosing `if err != nil` branches established.
+func (t *tr) nilness(e ast.Expr) int {
+	switch x := e.(type) {
+	case *ast.ParenExpr:
+		return t.nilness(x.X)
+	case *ast.Ident:
+		if x.Name == "nil" {
+			return 2
+		}
+		if x.Name == "err" {
+			return t.errKnown
+		}
+	case *ast.CallExpr:
+		switch norm(src(x.Fun)) {
+		case "fmt.Errorf", "errors.New", "status.Errorf", "status.Error":
+			return 1
+		}
+	case *ast.CompositeLit:
+		return 1
+	case *ast.UnaryExpr:
+		if x.Op == token.AND {
+			return 1
+		}
+	}
+	return 0
+}
+
+// nilCompare: `x == nil` / `x != nil` decided from what is known about x on this path ("" = not decided here)
+func (t *tr) nilCompare(e ast.Expr) string {
+	b, ok := e.(*ast.BinaryExpr)
+	if !ok || (b.Op != token.EQL && b.Op != token.NEQ) {
+		return ""
+	}
+	var other ast.Expr
+	if id, ok := b.Y.(*ast.Ident); ok && id.Name == "nil" {
+		other = b.X
+	} else if id, ok := b.X.(*ast.Ident); ok && id.Name == "nil" {
+		other = b.Y
+	} else {
+		return ""
+	}
+	switch t.nilness(other) {
+	case 1:
+		if b.Op == token.NEQ {
+			return "true"
+		}
+		return "false"
+	case 2:
+		if b.Op == token.NEQ {
+			return "false"
+		}
+		return "true"
+	}
+	return ""
+}
+
 func (t *tr) expr(e ast.Expr) string {
 	e = t.subst(e)
 	s := src(e)
@@ -759,6 +845,9 @@ func (t *tr) expr(e ast.Expr) string {
 			return "(" + t.ops() + ".neg " + t.expr(x.X) + ")"
 		}
 	case *ast.BinaryExpr:
+		if c := t.nilCompare(x); c != "" {
+			return c
+		}
 		a, b := t.expr(x.X), t.expr(x.Y)
 		o := t.ops()
 		switch x.Op {
@@ -1441,6 +1530,20 @@ func (t *tr) block(b []ast.Stmt, tail string, ind string) string {
 		if len(x.Rhs) == 1 && src(x.Lhs[len(x.Lhs)-1]) == "err" {
 			if _, known := prefixLookup(t.sp.ErrCalls, callKey(t.subst(x.Rhs[0]))); !known {
 				st0 := t.save()
+				// results of the helper other than its error that the rest of the function mentions: then only an inlining that
+				// keeps them (inlineMulti) will do
+				var others []string
+				for _, l := range x.Lhs[:len(x.Lhs)-1] {
+					if id, isId := l.(*ast.Ident); isId && id.Name != "_" {
+						others = append(others, id.Name)
+					}
+				}
+				if mentions(rest, others) {
+					if out, ok := t.inlineMulti(x, rest, tail, ind); ok {
+						return out
+					}
+					t.restore(st0)
+				}
 				if b, ok := t.inlineErr(x.Rhs[0]); ok {
 					t.pendingErr = b
 					if t.opaque == nil {
@@ -1509,7 +1612,7 @@ func (t *tr) block(b []ast.Stmt, tail string, ind string) string {
 					pre = "let " + name[i+1:] + "\n" + ind
 					name = name[:i]
 				}
-				t.pendingErr = name
+				t.pendingErr, t.errKnown = name, 0
 				return pre + t.block(rest, tail, ind)
 			}
 		}
@@ -1642,6 +1745,7 @@ func (t *tr) block(b []ast.Stmt, tail string, ind string) string {
 			}
 		}
 		var c string
+		condFail := false
 		if x.Init != nil {
 			if as, ok := x.Init.(*ast.AssignStmt); ok && len(t.aliases) > 0 {
 				// names the init statement assigns no longer stand for what an inlined helper's return set them to
@@ -1685,15 +1789,53 @@ func (t *tr) block(b []ast.Stmt, tail string, ind string) string {
 		} else if src(x.Cond) == "err != nil" && t.pendingErr != "" {
 			c = t.pendingErr
 			t.pendingErr = ""
+		} else if kc := t.nilCompare(t.subst(x.Cond)); kc != "" {
+			c = kc
+		} else if hasReturn(x.Body.List) || hasReturn(els) {
+			// a test on data whose two outcomes turn out to continue identically need not be translatable (see below)
+			var ok bool
+			if c, ok = t.tryExpr(x.Cond); !ok {
+				condFail = true
+			}
 		} else {
 			c = t.expr(x.Cond)
 		}
 		if hasReturn(x.Body.List) || hasReturn(els) {
 			// continuation-duplicating form
+			// a test already decided on this path (an inlined helper's return fixed what is compared): only the live branch exists
+			if c == "true" {
+				return t.block(append(append([]ast.Stmt{}, x.Body.List...), rest...), tail, ind)
+			}
+			if c == "false" {
+				return t.block(append(append([]ast.Stmt{}, els...), rest...), tail, ind)
+			}
 			st := t.save()
+			errTest := 0 // 1: the condition is `err != nil`, 2: `err == nil`
+			if x.Init == nil {
+				switch norm(src(x.Cond)) {
+				case "err!=nil":
+					errTest = 1
+				case "err==nil":
+					errTest = 2
+				}
+			}
+			if errTest != 0 {
+				t.errKnown = errTest
+			}
 			thenPart := t.block(append(append([]ast.Stmt{}, x.Body.List...), rest...), tail, ind+"  ")
 			t.restore(st)
+			if errTest != 0 {
+				t.errKnown = 3 - errTest
+			}
 			elsePart := t.block(append(append([]ast.Stmt{}, els...), rest...), tail, ind)
+			if strings.Join(strings.Fields(thenPart), " ") == strings.Join(strings.Fields(elsePart), " ") {
+				// both outcomes of the test behave identically as far as the unit observes: the test itself is immaterial
+				return elsePart
+			}
+			if condFail {
+				t.restore(st)
+				c = t.expr(x.Cond) // fails with the position of the untranslatable part
+			}
 			return "if " + c + " then\n" + ind + "  " + thenPart + "\n" + ind + "else\n" + ind + elsePart
 		}
 		vs := map[string]bool{}
